@@ -181,6 +181,8 @@ func payloadTag(e *protocol.Ethernet) string {
 		t += tag(d.Data)
 	case *protocol.IPv6:
 		t += tag(d.Data)
+	default:
+		t += "0"
 	}
 	return "tag" + t
 }
